@@ -3,9 +3,10 @@
    arrival forms x context chains) and of SyltOps (operator x same unsupported type x shape x context chains) (mode emit) and validate the recorded compile results of the real compiler
    against the specification's expectation (mode validate).
    A case id is <<m, path>>: m = <<0, index into MM, 0, 0>> for a table entry, <<core, form 1, form 2, layout>>
-   for a derived mismatch, <<NC + 1..3, pair, shape, variant>> for an operator-type mismatch.  Emission walks key by key (initial states: the keys; one Emit step per chain of the
+   for a derived mismatch, <<NC + 1..3, pair, shape, variant>> for an operator-type mismatch, <<NC + 4..6, .., .., ..>> for a
+   mismatch through sharing (SyltSharing).  Emission walks key by key (initial states: the keys; one Emit step per chain of the
    key), so that no set of all cases is ever built. *)
-EXTENDS SyltOps, Json, IOUtils, FiniteSetsExt
+EXTENDS SyltSharing, Json, IOUtils, FiniteSetsExt
 
 VARIABLES k, pc
 vars == <<k, pc>>
@@ -23,16 +24,25 @@ Slice == IF "SLICE" \in DOMAIN IOEnv THEN atoi(IOEnv.SLICE) ELSE 0
 SliceOf(m, p) == (m[1] * 37 + m[2] * 11 + m[3] * 5 + m[4] + CtxNo(p[1]) * 53 + (IF Len(p) > 1 THEN CtxNo(p[2]) * 17 ELSE 0)
                   + (IF Len(p) > 2 THEN CtxNo(p[3]) * 7 ELSE 0)) % NSlice
 
-TableKeys == {<<0, i, 0, 0>> : i \in 1..NM}
-Keys == AKeys(Pairs)
-AllKeys == TableKeys \cup Keys \cup OKeys
+\* sharing universe: sample of the chains (SMOD) and of the width-4 crossed patterns (XMOD); ONLY=share restricts a run to it
+SMod == IF "SMOD" \in DOMAIN IOEnv THEN atoi(IOEnv.SMOD) ELSE 236
+XMod == IF "XMOD" \in DOMAIN IOEnv THEN atoi(IOEnv.XMOD) ELSE 36
+Only == IF "ONLY" \in DOMAIN IOEnv THEN IOEnv.ONLY ELSE "all"
+
+TableKeys == IF Only = "share" THEN {} ELSE {<<0, i, 0, 0>> : i \in 1..NM}
+Keys == IF Only = "share" THEN {} ELSE AKeys(Pairs)
+OpKeys == IF Only = "share" THEN {} ELSE OKeys
+ShKeys == SKeys(Full, Seed, XMod)
+AllKeys == TableKeys \cup Keys \cup OpKeys \cup ShKeys
 \* the chains of a key (in this slice)
 PathsOf(m) == IF m[1] = 0 THEN PathsFor(MM[m[2]], D)
+              ELSE IF m[1] > NC + 3 THEN SChains(m, Seed, SMod)
               ELSE IF m[1] > NC THEN OChains(m, Full, Seed, Mod)
               ELSE IF IsPairOnly(m) THEN PairChains(m) ELSE AChains(m, Full, Seed, Mod)
 SlicePaths(m) == IF NSlice = 1 THEN PathsOf(m) ELSE {p \in PathsOf(m) : SliceOf(m, p) = Slice}
 KeyKnown(m) == (m[1] = 0 /\ m[2] \in 1..NM /\ m[3] = 0 /\ m[4] = 0)
-               \/ (m[1] > NC /\ OKeyKnown(m))
+               \/ (m[1] > NC + 3 /\ SKeyKnown(m, Full, Seed, XMod))
+               \/ (m[1] \in (NC + 1)..(NC + 3) /\ OKeyKnown(m))
                \/ (m[1] \in 1..NC /\ <<m[2], m[3], m[4]>> \in FormVecs(Cores[m[1]], Pairs) /\ Applicable(m))
 InUniverse(m, p) == KeyKnown(m) /\ p \in SlicePaths(m)
 CountOver(S) == FoldSet(LAMBDA m, acc : acc + Cardinality(SlicePaths(m)), 0, S)
@@ -47,12 +57,15 @@ ASSUME CoreKindsDistinct /\ CoreShape /\ OldCoresInTable /\ FormsDistinct
 ASSUME CoresDefinite /\ CoresDiffer
 ASSUME ArrivalSound
 ASSUME OTypeNamesDistinct /\ OpsDefinite /\ OpsCover
-ASSUME (Mode = "emit" /\ Slice = 0) => CellsInhabited(CaseIds(D))
-ASSUME (Mode = "emit" /\ Slice = 0) => ProgramsDiffer(CaseIds(D))
-ASSUME (Mode = "emit" /\ Slice = 0) => CellsMet(Pairs) /\ KeysPlaced(Keys, Full, Seed, Mod)
+ASSUME ShareSane
+ASSUME (Mode = "emit" /\ Slice = 0 /\ Only = "all") => CellsInhabited(CaseIds(D))
+ASSUME (Mode = "emit" /\ Slice = 0 /\ Only = "all") => ProgramsDiffer(CaseIds(D))
+ASSUME (Mode = "emit" /\ Slice = 0 /\ Only = "all") => CellsMet(Pairs) /\ KeysPlaced(Keys, Full, Seed, Mod)
 ASSUME Mode = "emit" => PrintT(<<"PRELUDE", ToJson(Prelude)>>)
 ASSUME Mode = "emit" => PrintT(<<"UNIVERSE", ToJson([table_cases |-> CountOver(TableKeys), arrival_cases |-> CountOver(Keys),
-                                                      ops_cases |-> CountOver(OKeys), ops_keys |-> Cardinality(OKeys),
+                                                      ops_cases |-> CountOver(OpKeys), ops_keys |-> Cardinality(OpKeys),
+                                                      share_cases |-> CountOver(ShKeys), share_keys |-> Cardinality(ShKeys),
+                                                      share_sizes |-> <<Cardinality(LKeys), Cardinality(VKeys), Cardinality(XKeys(Seed, XMod))>>,
                                                       op_pairs |-> <<Len(BinPairs), Len(CompPairs), Len(DiffPairs)>>,
                                                       keys |-> Cardinality(AllKeys), kinds |-> NM, depth |-> D,
                                                       contexts |-> Cardinality(Contexts), cores |-> NC, forms |-> NF,
@@ -61,7 +74,7 @@ ASSUME Mode = "emit" => PrintT(<<"UNIVERSE", ToJson([table_cases |-> CountOver(T
                                                       core_kinds |-> [i \in 1..NC |-> Cores[i].kind]])>>)
 
 Rec == IF Mode = "validate" THEN ndJsonDeserialize(IOEnv.TRACE) ELSE <<>>
-KindOf(m) == IF m[1] = 0 THEN MM[m[2]].kind ELSE IF m[1] > NC THEN OKind(m) ELSE AKind(m)
+KindOf(m) == IF m[1] = 0 THEN MM[m[2]].kind ELSE IF m[1] > NC + 3 THEN SKind(m) ELSE IF m[1] > NC THEN OKind(m) ELSE AKind(m)
 
 Init == /\ pc = "start"
         /\ IF Mode = "emit" THEN k \in {<<m, <<>>>> : m \in AllKeys}
@@ -75,6 +88,9 @@ IdRec(id) ==
     LET t == MM[m[2]] IN
     [kind |-> t.kind, m |-> m, path |-> id[2], depth |-> Len(id[2]), rule |-> t.rule, sort |-> t.sort, ty |-> t.ty,
      core |-> t.kind, forms |-> <<>>, u |-> "table"]
+  ELSE IF m[1] > NC + 3 THEN
+    [kind |-> SKind(m), m |-> m, path |-> id[2], depth |-> Len(id[2]), rule |-> SRule(m), sort |-> "S", ty |-> "-",
+     core |-> SClass(m), forms |-> SForms(m), u |-> "share"]
   ELSE IF m[1] > NC THEN
     [kind |-> OKind(m), m |-> m, path |-> id[2], depth |-> Len(id[2]), rule |-> OpRule(OOp(m)), sort |-> "S", ty |-> "-",
      core |-> OClass(m), forms |-> OForms(m), u |-> "ops"]
@@ -85,6 +101,7 @@ IdRec(id) ==
      forms |-> IF c.n = 1 THEN <<FName(Forms[m[2]])>> ELSE <<FName(Forms[m[2]]), FName(Forms[m[3]])>>]
 Prog(id, planted) ==
   IF id[1][1] = 0 THEN (IF planted THEN PlantedProgram(<<id[1][2], id[2]>>) ELSE BaseProgram(<<id[1][2], id[2]>>))
+  ELSE IF id[1][1] > NC + 3 THEN SProgram(id[1], id[2], planted)
   ELSE IF id[1][1] > NC THEN OProgram(id[1], id[2], planted)
   ELSE AProgram(id[1], id[2], planted)
 Base(id) == Prog(id, FALSE)
@@ -93,6 +110,8 @@ Planted(id) == Prog(id, TRUE)
 Emit == /\ Mode = "emit" /\ pc = "start" /\ pc' = "done"
         /\ \E p \in SlicePaths(k[1]) :
              /\ k' = <<k[1], p>>
+             \* definiteness of a sharing case is decided here by the typing model (all workers share the work)
+             /\ Assert((k[1][1] > NC + 3 /\ p = <<"start">>) => SDefinite(k[1]), "a sharing case is not definite: planted system satisfiable or base system not")
              /\ PrintT(<<"REPLAY", ToJson([id |-> IdRec(k'), base |-> Base(k'), planted |-> Planted(k')])>>)
 
 \* a record must be a case of the universe (of this slice) under the kind its key has; then its verdict is evaluated
